@@ -47,6 +47,8 @@ def parse_type(s):
     s = s.replace(" ", "")
     if s.startswith("Option<") and s.endswith(">"):
         return ("opt", parse_type(s[7:-1]))
+    if (s.startswith("Result<") or s.startswith("syn::Result<")) and s.endswith(">"):
+        return ("result", parse_type(split_top(s[s.index("<") + 1:-1])[0]))
     if s.startswith("Vec<") and s.endswith(">"):
         return ("vec", parse_type(s[4:-1]))
     if s.startswith("Punctuated<") and s.endswith(">"):
@@ -347,6 +349,7 @@ class Evaluator:
         self.opaque = set(opaque)      # fn/method names never inlined (summarised)
         self.decisions = {}
         self.effects = []
+        self.store = {}
         self.depth = 0
         self.max_depth = max_depth
         self.summaries = set()
@@ -522,6 +525,21 @@ class Evaluator:
                 segs_ = p["path"].split("::")
                 if len(segs_) >= 2 and self.types.enum_variants(segs_[-2]):
                     v = SymObj(v.path, ("named", segs_[-2]))
+                elif name in ("Some", "None") and len(segs_) == 1:
+                    v = SymObj(v.path, ("opt", ("named", "?")))
+                elif len(segs_) >= 2 and segs_[-2][:1].isupper():
+                    # unknown external enum: one boolean atom per tested variant (first-match order preserved)
+                    if not self.decide(f"{v.path} is {segs_[-2]}::{name}", [False, True]):
+                        return False
+                    if k == "PTupleStruct":
+                        for i_, sp in enumerate(x for x in p["elems"] if x["k"] != "PRest"):
+                            if not self.bind(sp, SymObj(f"{v.path}#{name}.{i_}", ("named", "?")), env):
+                                return False
+                    elif k == "PStruct":
+                        for f_ in p["fields"]:
+                            if not self.bind(f_["pat"], SymObj(f"{v.path}#{name}.{f_['member']}", ("named", "?")), env):
+                                return False
+                    return True
             t = self.tag_of(v)
             if isinstance(t, StructV) and k == "PStruct":
                 return self.bind(p, t, env)
@@ -567,6 +585,8 @@ class Evaluator:
         if isinstance(base, TupleV):
             return base.elems[int(name)]
         if isinstance(base, SymObj):
+            if base.path + "." + name in self.store:
+                return self.store[base.path + "." + name]
             ty = base.ty
             if ty[0] == "named" and ty[1] in self.types.structs:
                 fty = self.types.structs[ty[1]].get(name, ("named", "?"))
@@ -664,10 +684,14 @@ class Evaluator:
     def summary(self, name, recv, args, fi=None, ret=None):
         key = (vkey(recv) + "." if recv is not None else "") + name + "(" + ", ".join(self.argkey(a) for a in args) + ")"
         self.summaries.add(key)
+        self.effects.append(("summary", key))
         key = self.alias.get(key, key)
         ty = ret
         if ty is None and fi is not None:
-            ty = parse_type(fi.node["sig"]["output"] or "()")
+            out_ty = fi.node["sig"]["output"] or "()"
+            if fi.impl is not None:
+                out_ty = re.sub(r"\bSelf\b", fi.impl["self_ty"].split("<")[0].strip(), out_ty)
+            ty = parse_type(out_ty)
         return SymObj(key, ty or ("named", "?"))
 
     def argkey(self, a):
@@ -833,11 +857,11 @@ class Evaluator:
         raise Unsupported(f"method {name} on {vkey(recv)}")
 
     def std_ret(self, recv, name):
-        if name in ("is_empty", "contains_key", "contains", "starts_with", "any", "all", "is_ident", "peek", "eq", "ne"):
+        if name in ("is_empty", "contains_key", "contains", "starts_with", "ends_with", "any", "all", "is_ident", "eq", "ne"):
             return ("bool",)
         if name in ("len", "count"):
             return ("int",)
-        if name in ("next", "find", "get", "first", "last", "position"):
+        if name in ("next", "find", "get", "get_mut", "first", "last", "position", "pop", "find_map", "max_by_key", "min_by_key", "nth", "next_back", "first_mut", "last_mut"):
             return ("opt", ("named", "?"))
         return ("named", "?")
 
@@ -970,6 +994,10 @@ class Evaluator:
             if isinstance(base, StructV):
                 base.fields[target["member"]] = v
                 return
+            if isinstance(base, SymObj):
+                self.store[base.path + "." + target["member"]] = v
+                self.effects.append(("assign", base.path + "." + target["member"], vkey(v)))
+                return
             self.effects.append(("assign", render(target), vkey(v)))
             return
         self.effects.append(("assign", render(target), vkey(v)))
@@ -1071,6 +1099,8 @@ class Evaluator:
 
     def e_Try(self, e, env):
         v = self.eval(e["expr"], env)
+        if isinstance(v, SymObj) and v.ty[0] == "result":
+            return SymObj(v.path, v.ty[1])
         if isinstance(v, Tag) and v.name == "Err":
             raise ReturnEx(v)
         if isinstance(v, Tag) and v.name == "Ok" and v.args:
@@ -1130,9 +1160,13 @@ class Evaluator:
                 return SymObj("Span::" + name + "()", ("named", "Span"))
             if (en, name) in self.method_index:
                 fi = self.method_index[(en, name)]
-                if name in self.opaque:
+                if name in self.opaque or f"{en}::{name}" in self.opaque or (self.shallow and name not in self.transparent):
                     return self.summary(f"{en}::{name}", None, args, fi)
-                return self.inline(fi, None, args)
+                try:
+                    return self.inline(fi, None, args)
+                except Unsupported as u:
+                    self.summaries.add(f"auto:{en}::{name} ({u})")
+                    return self.summary(f"{en}::{name}", None, args, fi)
             if en == "Default" and name == "default":
                 return SymObj("Default::default()", ("named", "?"))
             key = f["path"] + "(" + ", ".join(self.argkey(a) for a in args) + ")"
@@ -1255,6 +1289,7 @@ def explore(make_eval, run, preset=None, limit=20000, constraint=None):
         ev.decisions = dict(dec)
         ev.last_arm = None
         ev.effects = []
+        ev.store = {}
         ev.summaries = set()
         ev.depth = 0
         try:
